@@ -1,10 +1,12 @@
 #!/bin/sh
-# verify_patch.sh <patch.diff|empty> <Cxx> <tag>   (from /verif)
+# verify_patch.sh <patch.diff> <tag> <Cxx> [<Cyy> ...]   (from /verif)
 # scratch worktree of /repo HEAD + patch: (1) digests of all demo artifacts -> work/pb/digests-<tag>.json,
-# (2) the check of <Cxx>, quick tier, with every baseline signature marked known in the scratch copy:
-#     KNOWN-FINDING lines show which baseline findings are still there, exit 0 = nothing new.
+# (2) the quick checks of the given properties with every baseline signature marked known in the scratch copy:
+#     KNOWN-FINDING lines show which baseline findings are still there, rc=0 = nothing new.
 D=docs/project_pb_mutations
+P=$1; TAG=$2; shift 2
 export VERIF_SCRATCH_TARGET=/verif/harness/target-scratch-pb
 mkdir -p work/pb
-SCRATCH_CMD="python3 $D/known_baseline.py $D/baseline_signatures.txt && VERIF_TARGET_DIR=$VERIF_SCRATCH_TARGET python3 docs/project_pb_patches/demo_digests.py /verif/work/pb/digests-$3.json && VERIF_SEED=1 VERIF_TARGET_DIR=$VERIF_SCRATCH_TARGET bin/vcheck $2 --tier quick; echo rc=\$?" \
-  bin/scratch-run $1 $2
+CMD="python3 $D/known_baseline.py $D/baseline_signatures.txt && VERIF_TARGET_DIR=$VERIF_SCRATCH_TARGET python3 docs/project_pb_patches/demo_digests.py /verif/work/pb/digests-$TAG.json"
+for c in "$@"; do CMD="$CMD; VERIF_SEED=1 VERIF_TARGET_DIR=$VERIF_SCRATCH_TARGET bin/vcheck $c --tier quick; echo rc_$c=\$?"; done
+SCRATCH_CMD="$CMD" bin/scratch-run $P $1
